@@ -302,3 +302,36 @@ def run_family(ctx, family, oracles, n_quick, n_thorough, name=None, nontrivial=
     if post:
         post(traces)
     return traces
+
+
+def fam_migration(rng, i):
+    """C09 across paths: the client's address changes (A -> B, often back to A, sometimes to B again) in the middle of
+    a server-to-client bulk transfer, while well over ten ack-eliciting packets sent on the old path are in flight:
+    their acknowledgements (or loss declarations) arrive on the NEW path and must be credited to the OLD path's
+    congestion controller with each packet's own size. A path's bytes_in_flight is only reported while it is the
+    current one, hence the return to A. With and without loss / reordering; both congestion controllers."""
+    delay = rng.choice([10, 25, 25, 60])
+    p = {
+        "seed": rng.randrange(1, 2**40), "bidi": rng.choice([0, 1, 2]), "uni": rng.choice([0, 1]), "suni": rng.choice([1, 2, 3]),
+        "size": rng.choice([150000, 400000, 1000000]), "chunk": 20000, "delay_ms": delay, "cc": rng.choice(["cubic", "cubic", "bbr"]),
+        "drop_pm": rng.choice([0, 0, 0, 20, 60, 150]), "jitter_ms": rng.choice([0, 0, 0, 3, delay // 2]), "dup_pm": rng.choice([0, 0, 50]),
+        "rebind_ip": rng.choice([3, 3, 3, 4, 4, 2]), "deadline_ms": 200000,
+    }
+    t = rng.randrange(5 * delay, 16 * delay)
+    times = []
+    for _ in range(rng.choice([2, 2, 3, 4])):
+        times.append(t)
+        t += rng.randrange(2 * delay, 25 * delay)
+    p["rebind_at_ms"] = ",".join(str(x) for x in times)
+    # keep the connection busy after the last rebind so that the re-activated path reports again
+    p["hold_ms"] = times[-1] + 30 * delay
+    p["tick_ms"] = max(5, delay // 2)
+    p["faults_until_ms"] = p["hold_ms"]
+    if rng.random() < 0.25:
+        # the acknowledgements of the old path's packets are lost for a while right after a rebind
+        k = rng.randrange(len(times))
+        p["bh"] = f"{times[k]}:{times[k] + rng.choice([1, 3]) * delay}:{rng.choice([1, 2])}"
+    return _nz(p)
+
+
+FAMILIES["migration"] = fam_migration
